@@ -18,7 +18,11 @@ import PromModel.Tsdb.Merge
     n                                       Next()     → <t>:<k>:<payload> | end | err | panic | dead
     k <t>                                   Seek(t)    → same
     chunks                                  expand the chunk iterator of the current chunk series
-                                            → c <mint>/<maxt>/<samples>|… <ok|err|panic>
+                                            → c <mint>/<maxt>/<n>/<first>/<last>/<samples>|… <ok|err|panic>
+                                            per chunk: meta range, `Chunk.NumSamples()`, the first and last
+                                            timestamp decoded from the chunk (`-` if none) and the decoded samples
+  Histogram payloads: `4*body + hint`, see `Prom.Merge.Sample.body`. Input chunks (`cs`) are read as the
+  chunk iterator hands them out (`decodeView`: hints normalised); output chunks are printed the same way.
   After `end`/`err`/`panic` an iterator is dead: further n/k answer `dead` (the harness does not call the
   code: what an exhausted chunk iterator answers to a later Seek is not part of the iterator contract).
 -/
@@ -52,6 +56,16 @@ def parseLabels? (s : String) : Option Labels :=
 
 def showChunk (c : Chunk) : String := s!"{c.mint}/{c.maxt}/{showSamples c.samples}"
 
+def showOptT : Option Sample → String | some s => toString s.t | none => "-"
+
+/-- an output chunk as observed: meta, sample count, first/last decoded timestamp, decoded samples -/
+def showOutChunk (c : Chunk) : String :=
+  let xs := decodeView c.samples
+  s!"{c.mint}/{c.maxt}/{xs.length}/{showOptT xs.head?}/{showOptT xs.getLast?}/{showSamples xs}"
+
+def showOutChunks (cs : List Chunk) : String :=
+  if cs.isEmpty then "-" else "|".intercalate (cs.map showOutChunk)
+
 def showChunks (cs : List Chunk) : String :=
   if cs.isEmpty then "-" else "|".intercalate (cs.map showChunk)
 
@@ -63,9 +77,28 @@ def parseChunk? (s : String) : Option Chunk :=
 def parseChunks? (s : String) : Option (List Chunk) :=
   if s = "-" then some [] else (s.splitOn "|").mapM parseChunk?
 
-/-- input chunks are given as sample lists; the meta range is first/last sample -/
+/-- observed output chunk: the chunk (meta + decoded samples), `NumSamples()`, first/last decoded timestamp -/
+structure OChunk where
+  c : Chunk
+  num : Nat
+  first : Option Int
+  last : Option Int
+deriving Repr, Inhabited
+
+def parseOptT? (s : String) : Option (Option Int) := if s = "-" then some none else s.toInt?.map some
+
+def parseOutChunk? (s : String) : Option OChunk :=
+  match s.splitOn "/" with
+  | [a, b, n, f, l, c] => do pure ⟨⟨← a.toInt?, ← b.toInt?, ← parseSamples? c⟩, ← n.toNat?, ← parseOptT? f, ← parseOptT? l⟩
+  | _ => none
+
+def parseOutChunks? (s : String) : Option (List OChunk) :=
+  if s = "-" then some [] else (s.splitOn "|").mapM parseOutChunk?
+
+/-- input chunks are given as sample lists; the meta range is first/last sample; the samples are what
+    the chunk's iterator hands out -/
 def parseInChunks? (s : String) : Option (List Chunk) :=
-  if s = "-" then some [] else (s.splitOn "|").mapM fun p => (parseSamples? p).map Chunk.ofSamples
+  if s = "-" then some [] else (s.splitOn "|").mapM fun p => (parseSamples? p).map fun xs => Chunk.ofSamples (decodeView xs)
 
 structure SSeries where
   labels : Labels
@@ -179,12 +212,12 @@ def stepModel (st : St) (line : String) : St × String :=
   | ["chunks"] =>
     match st.curC with
     | [] => (st, "bad-op")
-    | [s] => (st, "c " ++ showChunks s.chunks ++ " ok")
+    | [s] => (st, "c " ++ showOutChunks s.chunks ++ " ok")
     | ss =>
       if st.compact then
         let (cs, r) := compactAll (ss.map (·.chunks))
-        (st, "c " ++ showChunks cs ++ (match r with | .fin => " ok" | .err => " err" | _ => " panic"))
-      else (st, "c " ++ showChunks (concatAll (ss.map (·.chunks))) ++ " ok")
+        (st, "c " ++ showOutChunks cs ++ (match r with | .fin => " ok" | .err => " err" | _ => " panic"))
+      else (st, "c " ++ showOutChunks (concatAll (ss.map (·.chunks))) ++ " ok")
   | _ => (st, "bad-op")
 
 def model (ops : List String) : List String :=
@@ -221,6 +254,32 @@ def strictlyIncreasing : List Int → Bool
 def admissible (inputs : List Sample) (o : Sample) : Bool :=
   inputs.any fun s => s.t = o.t ∧ s.kind = o.kind ∧
     (s.payload = o.payload ∨ (s.kind ≠ .float ∧ o.payload = s.payload / 4 * 4))
+
+/-- a sample decoded from an output CHUNK is admissible iff some input chunk holds a sample with that
+    timestamp, type and value; a counter histogram's hint is whatever the position in the new chunk
+    dictates (unknown / not-reset, never an explicit reset), a gauge histogram stays gauge -/
+def admissibleDecoded (inputs : List Sample) (o : Sample) : Bool :=
+  inputs.any fun s => s.t = o.t ∧ s.kind = o.kind ∧
+    (s.payload = o.payload ∨
+      (s.kind ≠ .float ∧ s.payload / 4 = o.payload / 4 ∧ s.payload % 4 ≠ 3 ∧ (o.payload % 4 = 0 ∨ o.payload % 4 = 2)))
+
+/-- the chunk-level clause, independent of the model: `NumSamples()` = number of decoded samples ≥ 1,
+    the first/last decoded timestamps are those of the decoded sample list, and the meta range
+    `[MinTime, MaxTime]` is exactly [first, last] -/
+def metaMatches (o : OChunk) : Option String :=
+  let ts := o.c.samples.map (·.t)
+  if o.num = 0 ∨ o.num ≠ ts.length then some s!"chunk-count mint={o.c.mint} maxt={o.c.maxt} n={o.num} decoded={ts.length}"
+  else if o.first ≠ ts.head? ∨ o.last ≠ ts.getLast? then some s!"chunk-first-last mint={o.c.mint} maxt={o.c.maxt}"
+  else if some o.c.mint ≠ o.first ∨ some o.c.maxt ≠ o.last then
+    some s!"chunk-meta-vs-samples mint={o.c.mint} maxt={o.c.maxt} first={showOptT o.c.samples.head?} last={showOptT o.c.samples.getLast?}"
+  else none
+
+/-- metas of one output series: ordered and pairwise disjoint -/
+def metasOrdered : List OChunk → Option String
+  | a :: b :: r =>
+    if a.c.maxt < b.c.mint then metasOrdered (b :: r)
+    else some s!"chunk-metas-overlap-or-unordered prev={a.c.mint}/{a.c.maxt} next={b.c.mint}/{b.c.maxt}"
+  | _ => none
 
 /-- Walk a Next/Seek script over one merged series; `U` = expected timestamp sequence.
     `pos` = timestamp of the current sample. Returns the first failure. -/
@@ -279,7 +338,7 @@ def judgeCompact (ins : List Chunk) (out : List Chunk) : Option String :=
   let outS := out.flatMap (·.samples)
   if !out.all chunkWellFormed then some "chunk-malformed"
   else if !sortedChunks out then some "chunks-overlap-or-unordered"
-  else match outS.find? (fun o => !admissible inS o) with
+  else match outS.find? (fun o => !admissibleDecoded inS o) with
   | some o => some s!"invented-sample sample={showSample o}"
   | none =>
     if outS.map (·.t) ≠ tsUnion inS then some s!"chunk-samples-differ expected={showIntList (tsUnion inS)} got={showIntList (outS.map (·.t))}"
@@ -364,17 +423,25 @@ def judge (ops outs : List String) : String :=
         let ins := j.cser.filter (·.labels = j.curLabels)
         match toks out with
         | ["c", cs, status] =>
-          match parseChunks? cs with
+          match parseOutChunks? cs with
           | none => s!"violation unparsable op={k}"
-          | some outC =>
+          | some outO =>
+            let outC := outO.map (·.c)
             if status ≠ "ok" then s!"violation chunk-iter-{status} op={k} labels={showLabels j.curLabels}"
             else
               let inC := ins.flatMap (·.chunks)
               let v : Option String :=
                 match ins with
-                | [one] => if outC = one.chunks then none else some "passthrough-changed"
+                | [one] => if outC = one.chunks then outO.findSome? metaMatches else some "passthrough-changed"
                 | _ =>
-                  if j.mode = "compact" then judgeCompact inC outC
+                  if j.mode = "compact" then
+                    -- chunk metas vs chunk contents, and their order: stated on the output alone
+                    match outO.findSome? metaMatches with
+                    | some e => some e
+                    | none =>
+                      match metasOrdered outO with
+                      | some e => some e
+                      | none => judgeCompact inC outC
                   else
                     let key (cs : List Chunk) := (cs.map showChunk).mergeSort (fun a b => a ≤ b)
                     if key inC = key outC then none else some "concat-differs"
